@@ -34,8 +34,10 @@ from core import Driver, Failure, q
 
 ID = "C19"
 from genf import translate  # noqa: E402,F401  (regenerates lean/PyribsGen/Formulas.lean from the tree under check)
-PROOF_MODULES = ["PyribsProofs.C19", "PyribsGen.Formulas", "PyribsProofs.GenFOpt", "PyribsProofs.GenFCtl"]
+PROOF_MODULES = ["PyribsProofs.C19", "PyribsGen.Formulas", "PyribsProofs.GenFOpt", "PyribsProofs.GenFCtl",
+                 "PyribsGen.Control", "PyribsProofs.GenFTell"]
 THEOREMS = [
+    "Pyribs.GenFProofs.tell_trace_from_source",
     "Pyribs.GenFProofs.gae_num_parents_matches",
     "Pyribs.GenFProofs.gae_check_restart_matches",
     # update rules of the gradient optimizers, regenerated from the source (harness/translate/formulas.py)
